@@ -161,3 +161,39 @@ def _safe_nf(s):
         return nf_stmt(s)
     except Exception:
         return None
+
+
+DEADSTORE_OK = {
+    ('photutils.isophote.sample.EllipseSample._iter_sigma_clip', 'count'): 'loop counter kept for readability; never used',
+}
+
+
+def run_deadstore(repo, res, modules):
+    """A local that is assigned by a plain single-name assignment and never read is either dead
+    code or - the case that matters - a misspelt target whose intended variable keeps its old value."""
+    n = 0
+    for f in repo.functions.values():
+        if f.module.name not in modules:
+            continue
+        stores, loads = {}, set()
+        for x in ast.walk(f.node):
+            if isinstance(x, ast.Name):
+                if isinstance(x.ctx, ast.Store):
+                    stores.setdefault(x.id, []).append(x)
+                else:
+                    loads.add(x.id)
+        params = set(f.params)
+        for name, nodes in stores.items():
+            plain = [x for x in nodes if isinstance(getattr(x, '_parent', None), ast.Assign)
+                     and len(x._parent.targets) == 1 and x._parent.targets[0] is x]
+            if not plain:
+                continue
+            n += 1
+            ok = name in loads or name.startswith('_') or name in params or (f.fullname, name) in DEADSTORE_OK
+            res.oblige('DEADSTORE', f'{f.qualname}: local `{name}` is read somewhere', ok, nontrivial=False)
+            if not ok:
+                st = plain[0]._parent
+                res.add(Finding('DEADSTORE', f.fullname, norm_stmt_text(st), f'{f.module.relpath}:{st.lineno}',
+                                f'{f.qualname}: `{name}` is assigned at `{norm_stmt_text(st)}` but never read: the value does not reach '
+                                f'the result (misspelt target? the intended variable keeps its previous value)', {}))
+    return n
